@@ -347,6 +347,12 @@ def s2_trace_velocity():
     bad = tracer.selfcheck_velocity(traced)
     if bad:
         return f"tracer self-check failed for {bad} (printed expression != what the Python function computes)"
+    # utils.strain_increment around a symbolic eigvalsh (lean/Generated/TracedStrainIncrement.lean, lean/Bridge/StrainIncrement.lean)
+    t2 = tracer.trace_strain_increment()
+    tracer.emit_strain_increment(t2)
+    bad = tracer.selfcheck_strain_increment(t2)
+    if bad:
+        return f"tracer self-check failed for {bad}"
     return None
 
 
